@@ -107,7 +107,8 @@ func H20f() {
 	}
 	vAssert(verr == nil && res != nil && res.Validity() == contract.Valid, "H20f.accepted: a validly signed contract with all required attributes was not accepted although the mode allows its scheme managers")
 	if verr == nil && res != nil {
-		vAssert(res.DisclosedAttribute("gemeente.personalData.initials") == "T" && res.DisclosedAttribute("gemeente.personalData.familyname") == "Tester", "H20f.attributes_reported: disclosed attributes are not reported")
+		da := res.DisclosedAttributes()
+		vAssert(len(da) == 2 && da["gemeente.personalData.initials"] == "T" && da["gemeente.personalData.familyname"] == "Tester", "H20f.attributes_reported: disclosed attributes are not reported")
 	}
 }
 
